@@ -101,8 +101,18 @@ Definition dec_event (k a b : N) : event :=
   | 8 => Restart
   | 9 => Keepalive
   | 10 => Abandon
+  | 12 | 13 | 14 => Respond (N.to_nat (a mod 1024)) b   (* a response with an event inside its processing window, see dec_pre *)
   | _ => Recv a      (* 11: a KEEPALIVE received under session a.  The slice treats it like a data message (same
                         path up to the TUN write); in these steps the observed ob_tun carries "accepted" (rx_bytes grew). *)
+  end.
+(* The event handled INSIDE the response-processing window (between ConsumeMessageResponse and
+   BeginSymmetricSession) of a step with code 12 (data under session a/1024), 13 (a keepalive under it)
+   or 14 (SendHandshakeInitiation as the timers call it; a/1024 = forced). *)
+Definition dec_pre (k a : N) : option event :=
+  match k with
+  | 12 | 13 => Some (Recv (a / 1024))
+  | 14 => Some (Initiate (dec_bool (a / 1024)))
+  | _ => None
   end.
 Definition dec_step (l : list N) : event * obs :=
   match l with
@@ -116,15 +126,39 @@ Definition dec_step (l : list N) : event * obs :=
              (dec_pairs (skipn n rest)) (dec_opt h) (dec_bool la) st (dec_opt ls))
   | _ => (Tick 0, obs0)
   end.
+Definition dec_pre_step (l : list N) : option event :=
+  match l with ek :: ea :: _ => dec_pre ek ea | _ => None end.
 
-Definition case := list (event * obs).
-Definition mk (steps : list (list Uint63.int)) : case := map (fun l => dec_step (ns_of_ints l)) steps.
+(* A step of a case: the event inside the response-processing window (if the step is such a response),
+   the event, and what was observed after the whole step. *)
+Definition case := list (option event * (event * obs)).
+Definition mk (steps : list (list Uint63.int)) : case :=
+  map (fun l => let ns := ns_of_ints l in (dec_pre_step ns, dec_step ns)) steps.
+
+(* the model's step for a case step: [step], or [step_window] for a response with an event inside its window *)
+Definition xstep (s : state) (w : option event) (e : event) : state * out :=
+  match w, e with
+  | Some pre, Respond k r => step_window s pre k r
+  | _, _ => step s e
+  end.
+
+Fixpoint first_mismatch_x (s : state) (tr : case) (pos : N) : option (N * N) :=
+  match tr with
+  | [] => None
+  | (w, (e, a)) :: tr' =>
+      let '(s', o) := xstep s w e in
+      let d := obs_diff (observe s' o) a in
+      if d =? 0 then first_mismatch_x s' tr' (pos + 1) else Some (pos, d)
+  end.
 
 (* kind 1 = the device differs from the mirror model, kind 2 = the property fails on the
-   observed behaviour.  Position = 100 * step + field/clause number. *)
+   observed behaviour.  Position = 100 * step + field/clause number.
+   The property's checker sees a window step as the response it is (clauses 4/5: completion and rotation
+   judged against the observation BEFORE the step; the latch bookkeeping starts afresh with the new
+   session, whatever was received inside the window), so every later step is judged as usual. *)
 Definition check_case (c : case) : list (N * N) :=
-  (match first_mismatch init c 0 with Some (p, d) => [(1, 100 * p + d)] | None => [] end) ++
-  (match first_violation sst0 c 0 with Some (p, v) => [(2, 100 * p + v)] | None => [] end).
+  (match first_mismatch_x init c 0 with Some (p, d) => [(1, 100 * p + d)] | None => [] end) ++
+  (match first_violation sst0 (map snd c) 0 with Some (p, v) => [(2, 100 * p + v)] | None => [] end).
 
 Fixpoint check_cases (ks : list case) (idx : N) : list (N * N * N) :=
   match ks with
@@ -142,7 +176,9 @@ Fixpoint check_cases (ks : list case) (idx : N) : list (N * N * N) :=
    16 forged message under next's index; 17 under current/previous; 18 under an index not honoured;
    19 replayed message; 20 restart; 21 restart with an unconfirmed key in next;
    22 keepalive sent under current; 23 rekey after 120 s on a keepalive-only send; 24 keepalive with no/expired key;
-   25 handshake attempt abandoned; 26 abandoned while a key is current *)
+   25 handshake attempt abandoned; 26 abandoned while a key is current;
+   27 response with an event inside its processing window; 28 a message accepted inside the window;
+   29 an initiation created inside the window (the consumed response is then void) *)
 Definition same_kp (o : option kp) (k : kp) : bool :=
   match o with Some x => id x =? id k | None => false end.
 
@@ -214,14 +250,23 @@ Fixpoint bump (l : list N) (i : nat) : list N :=
   | x :: t, S j => x :: bump t j
   end.
 
+Definition classify_x (s : state) (w : option event) (e : event) : list nat :=
+  match w, e with
+  | Some pre, Respond k r =>
+      let '(s1, o1) := step s pre in
+      [27%nat] ++ (if o_tun o1 then [28%nat] else []) ++ (if o_init o1 then [29%nat] else []) ++
+      classify s pre ++ classify s1 (Respond (if o_init o1 then S k else k) r)
+  | _, _ => classify s e
+  end.
+
 Fixpoint stats_case (s : state) (c : case) (st : list N) : list N :=
   match c with
   | [] => st
-  | (e, _) :: c' => stats_case (fst (step s e)) c' (fold_left bump (classify s e) st)
+  | (w, (e, _)) :: c' => stats_case (fst (xstep s w e)) c' (fold_left bump (classify_x s w e) st)
   end.
 
 Definition stats (ks : list case) : list N :=
-  fold_left (fun st k => stats_case init k st) ks (repeat 0 27).
+  fold_left (fun st k => stats_case init k st) ks (repeat 0 30).
 
 (* ---- exhaustive enumeration on the model ------------------------------------- *)
 (* The property's event kinds; a slot name is resolved against the model state. *)
